@@ -105,8 +105,15 @@ class Models:
         self.it = interp
         self.table = {}
         for name in dir(self):
-            if name.startswith('m_'):
+            if name.startswith('m_') and getattr(self, name) is not None:
                 self.table[name[2:].replace('__', '::')] = getattr(self, name)
+        self.table['__private::not'] = self.p_not
+        self.table['__private::format_err'] = self.p_format_err
+        self.table['BothDebug::__dispatch_ensure'] = self.p_dispatch_ensure
+        self.table['NotBothDebug::__dispatch_ensure'] = self.p_dispatch_ensure
+        self.table['__private_api::log'] = lambda c, *a: UNIT
+        self.table['__private_api::loc'] = lambda c, *a: Opaque('loc')
+        self.table['__private_api::enabled'] = lambda c, *a: False
 
     @property
     def ctx(self):
@@ -647,13 +654,14 @@ class Models:
         mm = deref(m)
         i = self.map_find(mm, k)
         if i >= 0:
-            return Enum('Entry', 0 if mm.kind == 'hash' else 1, 'Occupied', [Agg([mm, mm.entries[i]], 'OccupiedEntry')])
-        return Enum('Entry', 1 if mm.kind == 'hash' else 0, 'Vacant', [Agg([mm, k], 'VacantEntry')])
+            return Enum('Entry', 0 if mm.kind == 'hash' else 1, 'Occupied', [Agg([ref_to(mm), Ref(mm.entries[i], 1)], 'OccupiedEntry')])
+        return Enum('Entry', 1 if mm.kind == 'hash' else 0, 'Vacant', [Agg([ref_to(mm), k], 'VacantEntry')])
 
     m_BTreeMap__entry = m_HashMap__entry
 
     def _entry_insert(self, ve, val):
-        mm, k = ve.f
+        mm, k = deref(ve).f
+        mm = deref(mm)
         p = self.map_insert_pos(mm, k)
         e = [k, val]
         mm.entries.insert(p, e)
@@ -661,12 +669,12 @@ class Models:
 
     def m_Entry__or_insert(self, c, e, val):
         if e.vname == 'Occupied':
-            return Ref(e.f[0].f[1], 1)
+            return e.f[0].f[1]
         return self._entry_insert(e.f[0], val)
 
     def m_Entry__or_default(self, c, e):
         if e.vname == 'Occupied':
-            return Ref(e.f[0].f[1], 1)
+            return e.f[0].f[1]
         # value type is the last generic argument of the Entry type in the callee
         cal = parse_callee(c)
         vty = split_top(c[c.index('<') + 1: c.rindex('>::')], ',')[-1] if '<' in c else 'f64'
@@ -674,19 +682,19 @@ class Models:
 
     def m_Entry__or_insert_with(self, c, e, f):
         if e.vname == 'Occupied':
-            return Ref(e.f[0].f[1], 1)
+            return e.f[0].f[1]
         return self._entry_insert(e.f[0], self.call_closure(f))
 
     def m_Entry__and_modify(self, c, e, f):
         if e.vname == 'Occupied':
-            self.call_closure(f, Ref(e.f[0].f[1], 1))
+            self.call_closure(f, e.f[0].f[1])
         return e
 
     def m_VacantEntry__insert(self, c, ve, val):
         return self._entry_insert(ve, val)
 
     def m_OccupiedEntry__get_mut(self, c, oe):
-        return Ref(deref(oe).f[1], 1)
+        return deref(oe).f[1]
 
     m_OccupiedEntry__get = m_OccupiedEntry__into_mut = m_OccupiedEntry__get_mut
 
@@ -1388,13 +1396,13 @@ class Models:
     def m_Error__msg(self, c, m):
         return Opaque('anyhow', ('msg', m))
 
-    def m___private__format_err(self, c, args):
+    def p_format_err(self, c, args):
         return Opaque('anyhow', ('msg', args))
 
-    def m___private__not(self, c, b):
+    def p_not(self, c, b):
         return b_not(b)
 
-    def m_BothDebug____dispatch_ensure(self, c, *a):
+    def p_dispatch_ensure(self, c, *a):
         return Opaque('anyhow', ('ensure', a[-1]))
 
     def m_TraitKind__anyhow_kind(self, c, e):
@@ -1425,12 +1433,6 @@ class Models:
     m_panicking__panic = m_panicking__panic_fmt = m_panic_fmt = m_panicking__assert_failed = m_panic
     m_panicking__panic_display = m_option__expect_failed = m_result__unwrap_failed = m_panic
     m_panicking__unreachable_display = m_panicking__panic_explicit = m_panic
-
-    def m___private_api__log(self, c, *a):
-        return UNIT
-
-    def m___private_api__loc(self, c, *a):
-        return Opaque('loc')
 
     def m_max_level(self, c):
         return Enum('LevelFilter', 0, 'Off', [])
